@@ -49,7 +49,8 @@ class DomainParser:
         :return: a mapping between the type name and the appropriate PDDLType object.
         """
         self.logger.info("Starting to parse the types in the domain!")
-        pddl_types = {}
+        # First pass - collect the declarations (child -> parent name) in their declaration order.
+        declared_parents = {}
         same_types_objects = []
         index = 0
         while index < len(types):
@@ -58,29 +59,38 @@ class DomainParser:
                 index += 1
                 continue
 
-            pddl_type = types[index + 1]
-            parent_type = pddl_types.get(
-                pddl_type, PDDLType(name=pddl_type, parent=ObjectType)
-            )
-            pddl_types.update(
-                {
-                    descendant_typ_name: PDDLType(
-                        name=descendant_typ_name, parent=parent_type
-                    )
-                    for descendant_typ_name in same_types_objects
-                }
-            )
+            parent_name = types[index + 1]
+            for descendant_typ_name in same_types_objects:
+                declared_parents[descendant_typ_name] = parent_name
+
             same_types_objects = []
             index += 2
-            continue
 
-        if len(same_types_objects) > 0:
-            pddl_types.update(
-                {
-                    type_name: PDDLType(name=type_name, parent=ObjectType)
-                    for type_name in same_types_objects
-                }
-            )
+        for type_name in same_types_objects:
+            declared_parents[type_name] = "object"
+
+        # A type that is only used as a parent is implicitly a descendant of object.
+        for parent_name in list(declared_parents.values()):
+            if parent_name not in declared_parents and parent_name != "object":
+                declared_parents[parent_name] = "object"
+
+        # Second pass - create the type objects and link the parents regardless of the declaration order.
+        pddl_types = {
+            type_name: PDDLType(name=type_name, parent=ObjectType)
+            for type_name in declared_parents
+            if type_name != "object"
+        }
+        for type_name, pddl_type in pddl_types.items():
+            pddl_type.parent = pddl_types.get(declared_parents[type_name], ObjectType)
+
+        for type_name, pddl_type in pddl_types.items():
+            ancestor, steps = pddl_type, 0
+            while ancestor.parent is not None:
+                ancestor, steps = ancestor.parent, steps + 1
+                if steps > len(pddl_types) + 1:
+                    raise SyntaxError(
+                        f"The type {type_name} is part of a cyclic type hierarchy!"
+                    )
 
         pddl_types["object"] = ObjectType
         self.logger.debug(
